@@ -7,7 +7,7 @@ CHECKS = {
  "C02": dict(technique="TLC product exploration: Glushkov position automaton of the generator's tree (Meaning.tla) x recorded raw/minimised DFA (Equiv.tla)",
              text="Complete labelled-language equivalence decision per grammar and shell (raw and minimised automaton, nested within-word automata through a flattened bracket encoding) for every normal-form tree up to a node bound plus random grammars; the oracle is the TLA+ meaning computed from the generator's tree, the implementation side is the automaton recorded from the real pipeline.",
              ref="7/C02", note="Bounded corpus (exhaustive <= 4/5 nodes + random); description distribution only in documented shapes; TLC and the recorder's projection of DFA structures are trusted."),
- "C03": dict(technique="TLC product exploration raw x minimised (Equiv.tla) + Nerode/trim evaluation on recorded automata (MinCheck.tla)",
+ "C03": dict(technique="TLC product exploration raw x minimised (Equiv.tla) + Nerode/trim evaluation on recorded automata (MinCheck.tla); design level: Hopcroft.tla over all schedules, and trace validation of the hook events of do_minimize against it (HopTrace.tla)",
              text="For every recorded automaton pair the raw/minimised languages are decided equal by exhaustive product exploration, and the minimised automaton is decided deterministic, trim and Nerode-minimal with size equal to the number of Nerode classes of the raw automaton.",
              ref="7/C03", note="Automata are those the direct construction yields on the corpus; minimality is relative to the automaton's own alphabet."),
  "C11": dict(technique="TLC: Usage.Chosen via Equiv product exploration + ChosenCheck.tla (script command bodies, metamorphic group equality)",
@@ -84,7 +84,7 @@ def main():
         "setup_cmd": "./check build",
         "hooks": {
             "guard": "cargo feature `verif` (off by default)",
-            "enable": "harness crate /verif/harness depends on /repo with features = [\"verif\"]; the complgen binary used by the checks is built with the feature OFF",
+            "enable": "harness crate /verif/harness depends on /repo with features = [\"verif\"] (read-only accessors; event sink complgen::verif filled by do_minimize when enabled); the complgen binary used by the checks is built with the feature OFF",
             "baseline_off_cmd": "cd /repo && cargo test --workspace --no-fail-fast --offline",
             "source_commits": HOOK_COMMITS,
             "add_only": True,
@@ -98,6 +98,6 @@ def main():
     }
     json.dump(m, open(os.path.join(HERE, "MANIFEST.json"), "w"), indent=1)
 
-HOOK_COMMITS = ["74e87b2"]
+HOOK_COMMITS = ["74e87b2", "c98a0aa"]
 if __name__ == "__main__":
     main()
